@@ -1347,3 +1347,73 @@ def _loop_before(g, dom, tl, rl):
     if not tb or not rb:
         return False
     return tb[0].id in dom.get(rb[0].id, ()) and (tl.line, tl.col or 0) < (rl.line, rl.col or 0)
+
+
+# ====================================================================== PI1: output permutations are defined up to the dimension
+
+PERM_FILLERS = ('_mzd_ple', '_mzd_ple_russian', '_mzd_ple_naive', '_mzd_pluq_naive')
+_PLE_FAMILY = ('_mzd_ple', '_mzd_ple_russian', '_mzd_ple_naive', '_mzd_pluq_naive', '_mzd_pluq', 'mzd_ple', 'mzd_pluq', '_mzd_pluq_russian',
+               'mzp_init_window', 'mzp_free_window')
+
+
+def _has_identity_store(h, pid):
+    for n in h.body.walk():
+        if n.kind == 'BinaryOperator' and n.op == '=':
+            l, r = strip(n.kids[0], casts=True), strip(n.kids[1], casts=True)
+            if l.kind == 'ArraySubscriptExpr' and r.kind == 'DeclRefExpr':
+                b, ix = strip(l.kids[0], casts=True), strip(l.kids[1], casts=True)
+                if b.kind == 'MemberExpr' and b.name == 'values' and strip(b.kids[0], casts=True).kind == 'DeclRefExpr' and \
+                        strip(b.kids[0], casts=True).refid == pid and ix.kind == 'DeclRefExpr' and ix.refid == r.refid:
+                    return True
+    return False
+
+
+def rule_PI1(ctx, prog, label, rule='PI1', funcs=PERM_FILLERS):
+    """P and Q are outputs ("don't have to be identity permutations" on entry): each factorisation routine that records pivots in
+    them also sets the entries it does not use to the identity, by a loop `X->values[i] = i` that runs up to the matrix dimension.
+    Without it the entries at and beyond the rank keep what the caller's permutation held: the result depends on history."""
+    rr = RuleResult(rule, 'PLE/PLUQ routines define their output permutations up to the matrix dimension (identity fill reaching A->nrows for P, A->ncols for Q)')
+    for name in funcs:
+        f = prog.funcs.get(name)
+        if f is None or f.body is None:
+            raise AnalysisBroken('%s: %s no longer exists' % (rule, name))
+        fs = FuncSym(f)
+        mats = [p for p in f.params if 'mzd_t' in (p.type or '')]
+        perms = [p for p in f.params if 'mzp_t' in (p.type or '') and 'const' not in (p.type or '').split('*')[0]]
+        if not mats or len(perms) != 2:
+            raise AnalysisBroken('%s: signature of %s not recognised (matrix, P, Q expected)' % (rule, name))
+        A = mats[0]
+        for X, dim in ((perms[0], 'nrows'), (perms[1], 'ncols')):
+            rr.instances += 1
+            want = Lin.atom('%s.%s' % (A.name, dim))
+            ok, how, seen_fill = False, '', []
+            for n in f.body.walk():
+                if n.kind == 'BinaryOperator' and n.op == '=':
+                    l, r = strip(n.kids[0], casts=True), strip(n.kids[1], casts=True)
+                    if l.kind != 'ArraySubscriptExpr' or r.kind != 'DeclRefExpr':
+                        continue
+                    b, ix = strip(l.kids[0], casts=True), strip(l.kids[1], casts=True)
+                    if not (b.kind == 'MemberExpr' and b.name == 'values' and strip(b.kids[0], casts=True).kind == 'DeclRefExpr' and strip(b.kids[0], casts=True).refid == X.id):
+                        continue
+                    if ix.kind != 'DeclRefExpr' or ix.refid != r.refid:
+                        continue
+                    lr = fs.loop_range(ix.refid, n)
+                    if lr is None:
+                        continue
+                    seen_fill.append('[%r, %r)' % (lr[0], lr[1]))
+                    if lr[1] == want:
+                        ok, how = True, 'identity fill over [%r, %r)' % (lr[0], lr[1])
+                elif n.kind == 'CallExpr' and callee_name(n) and callee_name(n) not in _PLE_FAMILY:
+                    h = prog.funcs.get(callee_name(n))
+                    for i, a in enumerate(n.kids[1:]):
+                        a0 = strip(a, casts=True)
+                        if a0.kind == 'DeclRefExpr' and a0.refid == X.id and h is not None and h.body is not None and i < len(h.params) and \
+                                'const' not in (h.params[i].type or '').split('*')[0] and not ok and _has_identity_store(h, h.params[i].id):
+                            ok, how = True, 'handed to %s, which fills it with the identity' % callee_name(n)
+            rr.ob(ok, dict(function=name, permutation=X.name, discharged_by=how),
+                  Finding(rule, '%s|%s|%s' % (rule, name, dim), f.loc, name,
+                          '%s does not set the unused entries of its output permutation `%s` to the identity up to %s->%s (identity fills found: %s): '
+                          'entries at and beyond the rank keep what the caller\'s permutation held before, so the factorisation depends on history'
+                          % (name, X.name, A.name, dim, ', '.join(seen_fill) or 'none'), {}, label))
+    rr.require_floor(8, 'output permutations')
+    return rr
